@@ -167,6 +167,28 @@ def rule_d(ctx, cr):
               "on a conversion error the stack is unwound to the Return marker and pc restored",
               "the redo path no longer restores pc from the Return marker: the retry would resume "
               "after the INPUT statement")
+    # which errors become a redo: the arm must look at the error; subscripts and user functions
+    # of the INPUT targets run in the same window and can fail for reasons no reply can cure
+    calls = ex.calls_to("mach::runtime::Runtime::execute_loop")
+    looked = False
+    if len(calls) == 1:
+        dest = ex.cplace(calls[0].dest)
+        for b, s_, v in ex.field_stores("state"):
+            if ex.stored_variant(v) != ("mach::runtime::State", "InputRedo"):
+                continue
+            if not ex.dominates(calls[0].bb, b):
+                continue
+            for c in ex.conds_at(b):
+                txt = str(c[1])
+                if ("(%s as Err)" % dest) in txt and c[0] in ("variant", "variantin", "eq", "ne", "in"):
+                    looked = True
+    ctx.check(looked, "C17.d", "execute/redo-inspects-error", ex.span,
+              "only a conversion error of a reply field is turned into REDO FROM START",
+              "the InputRunning error arm turns EVERY runtime error into REDO FROM START without "
+              "looking at it, and unwinds to the nearest Return marker: an error raised by a "
+              "subscript or a user function of an INPUT target (`INPUT B(7)` with DIM B(5); "
+              "`INPUT B(FNA(0))` where FNA fails) asks for the reply again forever, or unwinds "
+              "to the function's marker and ends in INTERNAL ERROR")
     redo = [b for b, i, s in ex.aggregates("lang::error::ErrorCode", "RedoFromStart")]
     others = [p for p, f in cr.fns.items() if p != ex.path
               and list(f.aggregates("lang::error::ErrorCode", "RedoFromStart"))]
